@@ -145,6 +145,26 @@ func gsxVisit(name string) {
 		gsxrt.Reached("visit")
 		c.Check(f)
 	}
+	gsxCheckWarnings(c)
+}
+
+// gsxCheckWarnings states C07 for the diagnostics produced so far: a valid
+// position taken from a token of the analysed file, a non-inverted fix
+// range inside the file, a non-empty message.
+func gsxCheckWarnings(c *linter.Checker) {
+	ws := gsxrt.Field(gsxrt.Field(c, "ctx"), "warnings").([]linter.Warning)
+	for _, w := range ws {
+		gsxrt.Reached("warning")
+		gsxrt.Assert(w.Pos != token.NoPos, "pos: a diagnostic has no position")
+		gsxrt.Assert(gsxrt.IsInputPos(w.Pos), "pos: a diagnostic position is not the start of a token of the analysed file")
+		if w.Suggestion.Replacement != nil {
+			gsxrt.Assert(w.Suggestion.From != token.NoPos && w.Suggestion.To != token.NoPos, "pos: a fix range has no position")
+			gsxrt.Assert(w.Suggestion.From <= w.Suggestion.To, "pos: a fix range is inverted")
+			gsxrt.Assert(gsxrt.IsInputPos(w.Suggestion.From), "pos: a fix range does not start at a token of the analysed file")
+			gsxrt.Assert(gsxrt.IsInputPos(w.Suggestion.To), "pos: a fix range does not end at a token boundary of the analysed file")
+		}
+		gsxrt.Assert(w.Text != "", "pos: a diagnostic has an empty message")
+	}
 }
 
 // gsxWalk drives the checker's whole file walker (EnterFile/EnterFunc and the
@@ -162,4 +182,5 @@ func gsxWalk(name string) {
 	ctx.Filename = "cand.go"
 	gsxrt.Reached("visit")
 	c.Check(f)
+	gsxCheckWarnings(c)
 }
